@@ -386,6 +386,33 @@ pub fn main(args: &[String]) {
                     }
                     return;
                 }
+                if c["kind"] == "dev" {
+                    let mut bytes: Vec<u8> = vec![];
+                    for k in ["start", "end", "fmt"] {
+                        bytes.extend((c[k].as_u64().unwrap() as u16).to_be_bytes());
+                    }
+                    for w in 0..c["words"].as_u64().unwrap() {
+                        bytes.extend([0x9Cu8, 0x31 + w as u8]);
+                    }
+                    let r = guarded(|| {
+                        use read_fonts::FontRead;
+                        let d = read_fonts::tables::layout::Device::read(read_fonts::FontData::new(&bytes)).map_err(|e| e.to_string())?;
+                        Ok::<_, String>(d.iter().take(70_000).count())
+                    });
+                    match r {
+                        Err(p) => rep.violation(&format!("Device::iter panicked: {p}"), case),
+                        Ok(x) => {
+                            if let Ok(n) = x {
+                                if n as u64 > c["max"].as_u64().unwrap() {
+                                    rep.add("outcome_differs_from_model", 1);
+                                }
+                            }
+                            ev.push(json!({"op": "layhostile", "kind": "dev", "outcome": if x.is_ok() { "value" } else { "error" }}));
+                            rep.distinct += 1;
+                        }
+                    }
+                    return;
+                }
                 let fmt = c["fmt"].as_u64().unwrap();
                 let chain = c["chain"].as_bool().unwrap();
                 let n = c["n"].as_u64().unwrap() as u16;
